@@ -382,6 +382,7 @@ def main():
             loopdev = loop_attach(backing)
             if loopdev:
                 out = loopdev
+                _LOOP["used"] = _LOOP.get("used", 0) + 1
             else:
                 use_loop = False
         ap_ = os.path.join(dd, "a.cba")
@@ -593,7 +594,7 @@ def main():
     srv.shutdown()
     if not os.environ.get("L2_KEEP"):
         shutil.rmtree(base, ignore_errors=True)
-    print(json.dumps({"runs": nrun, "discarded": discarded}))
+    print(json.dumps({"runs": nrun, "discarded": discarded, "loopdev_scenarios": _LOOP.get("used", 0), "loop_available": bool(_LOOP["ok"])}))
 
 
 if __name__ == "__main__":
